@@ -7,6 +7,12 @@ CONFIG = {
         "util": [("crypto/stateproof", "stateproof")],
         "env": {"quick": {"VERIF_C39_N": 60, "VERIF_C39_POOL": 20}, "thorough": {"VERIF_C39_N": 1500, "VERIF_C39_POOL": 24}},
         "timeout": {"quick": 900, "thorough": 3000},
+    }, {
+        "name": "validate", "pkg": "./stateproof/verify/", "run": "^TestVerifC39Validate$",
+        "files": ["stateproof/verify/zz_verif_c39v_test.go"],
+        "util": [("stateproof/verify", "verify")],
+        "env": {"quick": {"VERIF_C39V_N": 1500}, "thorough": {"VERIF_C39V_N": 60000}},
+        "timeout": {"quick": 900, "thorough": 3000},
     }],
     "rule": "per scenario: 1..20 participants with real Falcon / merkle-signature keys (key lifetimes 1, 4, 256; 4 keys each), weights equal / small / up to 2^40 / one whale, "
             "10% zero weights, signing subsets of 30..100%, proven weight mostly a fraction of the signed weight, sometimes equal / above / signed-1, strength targets 1..256; "
@@ -16,7 +22,10 @@ CONFIG = {
             "participant key / lifetime / weight, L, reveal positions missing / other / swapped / dropped / added, signed weight, SigCommit, salt version, TreeDepth too large / changed with and "
             "without position renaming, proof paths, verifier's proven weight / target / participants commitment) -> 'verify' cases carrying the per-reveal facts "
             "(signature valid, salt, committable), both VC verification results and the coins, all computed with the primitives directly. "
-            "Non-trivial: verify cases with at least one reveal position, prove cases with at least one added signature, every isvalid case.",
+            "Ledger side ('validate' cases): the real ValidateStateProof on real proofs for custom consensus parameters (interval 4/16, different signer subsets, rounds around the "
+            "acceptable-weight ramp, tampered message / round / parameters) and on boundary-heavy (total weight, threshold, last attested round, at-round, signed weight near the acceptable weight) "
+            "tuples with a dummy proof; the inner Verifier.Verify outcome is recorded by calling the exported verifier. "
+            "Non-trivial: every validate case, verify cases with at least one reveal position, prove cases with at least one added signature, every isvalid case.",
     "exhaustive": {"quick": False, "thorough": False},
     "explanation": "theorems hold for every participant set, signature set, proof and round (unbounded); signatures, coin stream and vector commitments are parameters with explicit premises "
                    "(the vector-commitment premises are theorems of C37 for the merklearray model); the harness validates the transcription of prover.go / verifier.go against the real code "
